@@ -188,6 +188,11 @@ def zite(c, a, b):
         return tuple(zite(c, x, y) for x, y in zip(a, b))
     if isinstance(a, Seq) and isinstance(b, Seq):
         return Seq(zite(c, a.n, b.n), lambda i, a=a, b=b: zite(c, a.at(i), b.at(i)), a.kind)
+    if isinstance(a, DictV) and isinstance(b, DictV):
+        return DictV(lambda k: zite(c, a.dom(k), b.dom(k)), lambda k: zite(c, a.val(k), b.val(k)),
+                     zite(c, a.size, b.size), a.kty if a.kty != "any" else b.kty, a.vty if a.vty != "any" else b.vty)
+    if isinstance(a, SetV) and isinstance(b, SetV):
+        return SetV(lambda k: zite(c, a.has(k), b.has(k)), zite(c, a.size, b.size), a.kty if a.kty != "any" else b.kty)
     if a is None and b is None:
         return None
     if isinstance(a, str) and a == b:
